@@ -1,4 +1,5 @@
 """C08 - missing join values are handled exactly as allow_missing says."""
+import copy
 import itertools
 import sys
 
@@ -29,21 +30,22 @@ def tables(maxrows):
 
 def run_entry(kind, cfg, L, R, am, score, attrs, nj):
     lo, ro = (['x', 's'], ['s']) if attrs else (None, None)
+    lp, rp = ('L.', 'R.') if attrs else ('l_', 'r_')      # non-default prefixes together with output attributes
     if kind == 'join':
         meas, t, op = cfg
         fn = join_fn(meas)
         if meas == 'EDIT_DISTANCE':
-            return lib(fn, L, R, 'id', 'id', 's', 's', t, op, am, lo, ro, 'l_', 'r_', score, nj, False,
+            return lib(fn, L, R, 'id', 'id', 's', 's', t, op, am, lo, ro, lp, rp, score, nj, False,
                        QgramTokenizer(qval=2))
         tok = make_tokenizer(['ws', True])
         if meas == 'OVERLAP':
-            return lib(fn, L, R, 'id', 'id', 's', 's', tok, t, op, am, lo, ro, 'l_', 'r_', score, nj, False)
-        return lib(fn, L, R, 'id', 'id', 's', 's', tok, t, op, True, am, lo, ro, 'l_', 'r_', score, nj, False)
+            return lib(fn, L, R, 'id', 'id', 's', 's', tok, t, op, am, lo, ro, lp, rp, score, nj, False)
+        return lib(fn, L, R, 'id', 'id', 's', 's', tok, t, op, True, am, lo, ro, lp, rp, score, nj, False)
     name, meas, t = cfg
     f = make_filter(name, make_tokenizer(['ws', True]), meas, t, True, am)
     if name == 'Overlap':
-        return lib(f.filter_tables, L, R, 'id', 'id', 's', 's', lo, ro, 'l_', 'r_', score, nj, False)
-    return lib(f.filter_tables, L, R, 'id', 'id', 's', 's', lo, ro, 'l_', 'r_', nj, False)
+        return lib(f.filter_tables, L, R, 'id', 'id', 's', 's', lo, ro, lp, rp, score, nj, False)
+    return lib(f.filter_tables, L, R, 'id', 'id', 's', 's', lo, ro, lp, rp, nj, False)
 
 
 def w_missing(job):
@@ -58,7 +60,9 @@ def w_missing(job):
         lv = [VALS[k] for k in lt]
         rv = [VALS[k] for k in rt]
         L = mkframe(lv, pres, prefix='l', extra_cols={'x': ['u%d' % i for i in range(len(lv))]})
-        R = mkframe(rv, pres, prefix='r')
+        presr = copy.copy(pres)       # the right table has its key column at another position than the left
+        presr.colorder = 'jk' if pres.colorder == 'kj' else 'kj'
+        R = mkframe(rv, presr, prefix='r')
         lkeys = [cell(k) for k in L['id'].tolist()]
         rkeys = [cell(k) for k in R['id'].tolist()]
         lmiss = {k for k, v in zip(lkeys, lv) if isna(v)}
@@ -106,11 +110,14 @@ def w_missing(job):
                             problems.append('missing pair with a non-NaN score: %r' % (bad[:3],))
                     if attrs and not problems:
                         # projected attributes of missing pairs come from the right source rows
-                        xi = cols.index('l_x')
+                        xi = cols.index('L.x')
                         for r in miss_rows:
                             if r[xi] != 'u%d' % lkeys.index(r[0]):
                                 problems.append('missing pair projects the wrong left row: %r' % (r,))
                                 break
+                    for c_ in cols[:2]:
+                        if not c_.startswith('L.' if attrs else 'l_') and not c_.startswith('R.' if attrs else 'r_'):
+                            problems.append('unexpected column %r' % c_)
                     if list(full['_id']) != list(range(len(full))) or list(base['_id']) != list(range(len(base))):
                         problems.append('_id is not 0..n-1')
                     if problems:
@@ -150,6 +157,32 @@ def w_missing(job):
                                         viol.append({'key': 'C08|pair|%s|am%s|%r|%r' % (name, am, x, y),
                                                      'what': 'C08: %sFilter(allow_missing=%s).filter_pair(%r,%r) '
                                                              'wrong' % (name, am, x, y), 'detail': {}})
+                # realistic pipeline: the candidate set is itself the output of filter_tables(allow_missing=True)
+                # (its row labels repeat, because per-job and missing-pair frames are concatenated)
+                P = lib(make_filter('Size', make_tokenizer(['ws', True]), 'JACCARD', 0.01, True, True).filter_tables,
+                        L, R, 'id', 'id', 's', 's', None, None, 'l_', 'r_', 2, False)
+                calls += 1
+                if len(P):
+                    for (name, meas, t) in FILTS[:3]:
+                        f2 = make_filter(name, make_tokenizer(['ws', True]), meas, t, True, am)
+                        oc2 = lib(f2.filter_candset, P, 'l_id', 'r_id', L, R, 'id', 'id', 's', 's', 1, False)
+                        calls += 1
+                        cases += 1
+                        kept2 = sorted((cell(a), cell(b)) for a, b in zip(oc2['l_id'].tolist(), oc2['r_id'].tolist())
+                                       if cell(a) in lmiss or cell(b) in rmiss)
+                        want2 = exp_missing if am else []
+                        exp_rows = [tuple(cell(v) for v in row) for row in P.values.tolist()
+                                    if not lib(f2.filter_pair, lv[lkeys.index(cell(row[1]))], rv[rkeys.index(cell(row[2]))])]
+                        got_rows = [tuple(cell(v) for v in row) for row in oc2.values.tolist()]
+                        if kept2 != want2 or got_rows != exp_rows:
+                            nviol += 1
+                            if len(viol) < MAXV:
+                                viol.append({'key': 'C08|pipeline-candset|%s|am%s|%r|%r' % (name, am, lv, rv),
+                                             'what': 'C08: %sFilter(allow_missing=%s).filter_candset on the output of '
+                                                     'SizeFilter.filter_tables(allow_missing=True, n_jobs=2) for left=%r '
+                                                     'right=%r keeps missing pairs %r (expected %r) and %d rows (expected %d)'
+                                                     % (name, am, lv, rv, kept2, want2, len(got_rows), len(exp_rows)),
+                                             'detail': {}})
                 om = lib(ssj.apply_matcher, C, 'l_id', 'r_id', L, R, 'id', 'id', 's', 's',
                          make_tokenizer(['ws', True]), Jaccard().get_raw_score, 0.5, '>=', am, None, None,
                          'l_', 'r_', True, job['n_jobs'][-1], False)
